@@ -298,6 +298,44 @@ def r3_writers(ctx, f, rep):
                   site=rec_writes[0]['span'], construct='replacement-writes',
                   facts={k: show(v, b) for k, v in got.items()})
     rep.floor('C01-R3', n_repl, 1, 'paths through the replacement branch')
+    # converse: whenever the identities differ, the stored one does not win and the caller condition holds, the record IS
+    # replaced - whatever the two states are ("supersedes the other whatever their states")
+    n_conv = 0
+    for p in paths:
+        if p.end != 'return':
+            continue
+        calls = {c['id']: c for c in p.calls()}
+        differs = lost = cond_ok = None
+        extra = []
+        for c in p.conds():
+            ex = c['expr']
+            es = q.eq_sides(ex)
+            if es and {(q.field_path(x[1])[1][-1] if x[0] == 'load' else (x[2] if x[0] == 'fieldv' else None)) for x in es[1:]} == {'id'}:
+                differs = (q.cond_truth(c) != es[0])
+                continue
+            if ex[0] == 'call' and ex[1] in calls:
+                cc = calls[ex[1]]
+                if cc['decl'] == 'identity::Identity::win_addr_conflict':
+                    lost = q.cond_truth(c) is False
+                    continue
+                if cc['decl'].startswith('core::ops::Fn'):
+                    cond_ok = q.cond_truth(c) is True
+                    continue
+            if ex[0] == 'discr' and ex[1][0] == 'call':
+                continue       # the lookup result
+            extra.append(c)
+        if differs and lost and cond_ok:
+            n_conv += 1
+            ws = [w for w in p.writes() if q.place_root(w['place'])[0] == 'deref' and
+                  q.field_path(w['place'])[1][-1:] == ['id']]
+            # conditions evaluated after the replacement (num_active bookkeeping) are fine; none may precede it
+            first_w = p.index_of(ws[0]) if ws else len(p.events)
+            early = [c for c in extra if p.index_of(c) < first_w]
+            rep.check(bool(ws) and not early, 'C01-R3', b.nname, 'a conflict-winning update replaces the stored record '
+                      'unconditionally (no test on either state stands between the conflict decision and the replacement)',
+                      construct='replacement-unconditional',
+                      facts={'replaced': bool(ws), 'extra_conditions': [q.describe(p, c['expr'], b) for c in early]})
+    rep.floor('C01-R3', n_conv, 1, 'paths where the update wins the conflict')
     # non-conflict paths: the only mutation of the record is change_state(update.incarnation, update.state)
     n_cs = 0
     for p in paths:
